@@ -213,6 +213,7 @@ namespace adept {
 	}
       }
 
+      --iterations_remaining;
     }
 
     // Second step: reduce the bounds until we get sufficiently close
